@@ -20,7 +20,7 @@ DEV_PROP = {"Code_ReconcileKillIgnoresRoster": "NoFriendlyFireRostered",
 TRANSIENT = {"deploying", "launched", "locked", "deployed", "configuring", "starting", "releasing", "killing"}
 LAUNCHPH = {"launched", "locked", "deployed"}
 SAFETY = "SameIdentity IdentityStable"
-WORKERS = 4
+WORKERS = max(4, vlib.NCPU // 2)
 
 
 def devs(ctx):
@@ -582,7 +582,10 @@ def run(ctx):
         "crash = SIGKILL of the core process; crash points are those at which the simulation can hold the core: between requests, "
         "at the ACCEPT call, while launched tasks are staging, while a CONFIGURE/START command or the KILL calls of a teardown / of "
         "a reconciliation are on their way",
-        "a crash between SUBSCRIBED and the write of the framework id is covered by the model only",
+        "a crash between SUBSCRIBED and the write of the framework id, and a reconnection between ACCEPT and the locking of the "
+        "launched tasks, are covered by the model only (no hold point there)",
+        "every scenario runs in a coresim process of its own (fresh registration back-off); the simulated master refuses a command "
+        "whose target tasks it has already killed (harness/coresim/ext_c18.go)",
     ]
     ctx.rule = ("scenario = prefix of a behaviour of RestartGen (tlc -simulate, seeded) ending where recovery from its k-th fault has "
                 "settled, or a TLC counterexample; selected greedily for new fault points (fault, phase of the interrupted request, "
@@ -599,6 +602,12 @@ def run(ctx):
                     workers=WORKERS, timeout=900)
     if ctx.model_runs[-1]["result"] != "ok":
         raise vlib.Inconclusive("the repaired design violates its own properties: " + ctx.model_runs[-1]["result"])
+    if not quick:
+        three = consts(["k1", "k2", "k3"], ["e1", "e2"], 2, 1, fixed)
+        ctx.model_check("Restart", "repaired-3tasks", cfg_text=cfg_model(three, allp, "TypeOK TasksUnderIdentity RosterOfThisLife EnvsStay"),
+                        workers=WORKERS, timeout=1500)
+        if ctx.model_runs[-1]["result"] != "ok":
+            raise vlib.Inconclusive("the repaired design violates its own properties: " + ctx.model_runs[-1]["result"])
     # 2. the tree as described by the open deviations: the other properties hold, the deviation shows
     cex = []
     if any(dv.values()):
